@@ -42,6 +42,14 @@ try:
     r0 = subprocess.run(['/venv/bin/python', os.path.abspath(a.demo)], env=env, cwd=tmp, stdout=subprocess.PIPE, stderr=subprocess.STDOUT, text=True, timeout=300)
     meta['demo_without_patch_exit'] = r0.returncode
     r = subprocess.run(['git', '-C', repo, 'apply', os.path.abspath(a.patch)], stderr=subprocess.PIPE, text=True)
+    if r.returncode:
+        # the repository moved on (later fix: commits) since the patch was written: merge it
+        r = subprocess.run(['git', '-C', repo, 'apply', '--3way', os.path.abspath(a.patch)], stderr=subprocess.PIPE, text=True)
+        meta['applied_with_3way_merge'] = r.returncode == 0
+        if r.returncode == 0:
+            d = subprocess.check_output(['git', '-C', repo, 'diff', 'HEAD'])
+            open(os.path.abspath(a.patch) + '.rebased', 'wb').write(d)
+            a.patch = os.path.abspath(a.patch) + '.rebased'
     meta['patch_applies'] = r.returncode == 0
     if r.returncode:
         print('PATCH DOES NOT APPLY:', r.stderr)
